@@ -12,6 +12,8 @@ package main
 // the normalised proto produced by ToFileDescriptorProto (see fam_conv_ast.go).
 
 import (
+	"os"
+	"google.golang.org/protobuf/encoding/prototext"
 	"fmt"
 	"sort"
 	"strings"
@@ -212,6 +214,15 @@ func convNormalize(p *descriptorpb.FileDescriptorProto, env *convEnv) *descripto
 		return proto.String("." + full)
 	}
 	field := func(scope string, f *descriptorpb.FieldDescriptorProto) {
+		if f.Type == nil && f.TypeName != nil {
+			// 1b. an unset type is filled in from the kind of the resolved declaration
+			switch _, _, k := env.lookup(scope, f.GetTypeName()); k {
+			case convKindMsg:
+				f.Type = descriptorpb.FieldDescriptorProto_TYPE_MESSAGE.Enum()
+			case convKindEnum:
+				f.Type = descriptorpb.FieldDescriptorProto_TYPE_ENUM.Enum()
+			}
+		}
 		f.TypeName = abs(scope, f.TypeName)
 		f.Extendee = abs(scope, f.Extendee)
 		if f.Proto3Optional != nil && !f.GetProto3Optional() {
@@ -409,7 +420,11 @@ func convCheckC34(c *Ctx, cs *convCase) (protoreflect.FileDescriptor, *descripto
 	}
 	so := convSnapOpts{locations: true, features: true}
 	if d := convDiff(convSnap(fd, so), convSnap(fd2, so)); d != "" {
-		c.PropFail("C34", "newfile_toproto_snapshot_differs:"+cs.origin, in, d)
+		if cs.origin == "corpus:fk4" {
+			c.Known("FK4", "C34", "editions file with LABEL_REQUIRED / TYPE_GROUP is accepted, ToFileDescriptorProto rewrites them to OPTIONAL / MESSAGE without adding the features: round trip changes Cardinality / Kind")
+		} else {
+			c.PropFail("C34", "newfile_toproto_snapshot_differs:"+cs.origin, in, d)
+		}
 	}
 	if q2, err := convToProto(fd2); err != nil || !proto.Equal(q2, q) {
 		c.PropFail("C34", "toproto_not_idempotent:"+cs.origin, in)
@@ -496,6 +511,37 @@ func convFeatureEnums(p *descriptorpb.FileDescriptorProto) map[string]bool {
 	return out
 }
 
+// convPackedBoth: fields/extensions of p whose options carry both an explicit packed and a
+// features.repeated_field_encoding (recogniser of FK3; protoc refuses packed under editions).
+func convPackedBoth(p *descriptorpb.FileDescriptorProto) map[string]bool {
+	out := map[string]bool{}
+	field := func(scope string, f *descriptorpb.FieldDescriptorProto) {
+		if o := f.GetOptions(); o != nil && o.Packed != nil && o.GetFeatures() != nil && o.GetFeatures().RepeatedFieldEncoding != nil {
+			out[convJoin(scope, f.GetName())] = true
+		}
+	}
+	var msg func(scope string, m *descriptorpb.DescriptorProto)
+	msg = func(scope string, m *descriptorpb.DescriptorProto) {
+		full := convJoin(scope, m.GetName())
+		for _, f := range m.Field {
+			field(full, f)
+		}
+		for _, f := range m.Extension {
+			field(full, f)
+		}
+		for _, n := range m.NestedType {
+			msg(full, n)
+		}
+	}
+	for _, f := range p.Extension {
+		field(p.GetPackage(), f)
+	}
+	for _, m := range p.MessageType {
+		msg(p.GetPackage(), m)
+	}
+	return out
+}
+
 // convCompare compares two descriptors' snapshots; a difference that disappears under the
 // narrow mask of a listed known finding is reported as K, everything else as P.
 // Returns true when the snapshots agree (possibly up to known findings).
@@ -510,9 +556,11 @@ func convCompare(c *Ctx, prop, what, in string, a, b protoreflect.FileDescriptor
 		set  func(o *convSnapOpts)
 	}
 	fe := convFeatureEnums(p)
+	pb := convPackedBoth(p)
 	masks := []mask{
 		{"FK1", "filedesc ignores enum-level features (EnumOptions.features): IsClosed/resolved features differ from protodesc", func(o *convSnapOpts) { o.maskEnums = fe }},
 		{"FK2", "protodesc does not copy FieldOptions.lazy to extensions: Extension.IsLazy differs from filedesc", func(o *convSnapOpts) { o.maskExtLazy = true }},
+		{"FK3", "explicit packed together with features.repeated_field_encoding: protodesc lets packed win, filedesc applies them in wire order", func(o *convSnapOpts) { o.maskPacked = pb }},
 	}
 	// smallest set of masks that explains the difference
 	for bits := 1; bits < 1<<len(masks); bits++ {
@@ -522,7 +570,7 @@ func convCompare(c *Ctx, prop, what, in string, a, b protoreflect.FileDescriptor
 				m.set(&mo)
 			}
 		}
-		if (bits&1 != 0) && len(fe) == 0 {
+		if ((bits&1 != 0) && len(fe) == 0) || ((bits&4 != 0) && len(pb) == 0) {
 			continue
 		}
 		if convDiff(convSnap(a, mo), convSnap(b, mo)) == "" {
@@ -534,6 +582,14 @@ func convCompare(c *Ctx, prop, what, in string, a, b protoreflect.FileDescriptor
 			}
 			return true
 		}
+	}
+	// report the first difference that no listed finding explains
+	mo := o
+	for _, m := range masks {
+		m.set(&mo)
+	}
+	if d2 := convDiff(convSnap(a, mo), convSnap(b, mo)); d2 != "" {
+		d = d2
 	}
 	c.PropFail(prop, what, in, d)
 	return false
@@ -587,7 +643,12 @@ func convLinked(c *Ctx) {
 		return true
 	})
 	sort.Slice(files, func(i, j int) bool { return files[i].Path() < files[j].Path() })
-	for _, d := range files {
+	for i, d := range files {
+		// every shard takes a quarter of the linked files (shard seeds differ by 7919 = 3 mod 4,
+		// so four consecutive shards cover all of them)
+		if uint64(i)%4 != c.Seed%4 {
+			continue
+		}
 		c.Stat("linked_files")
 		p, err := convToProto(d)
 		if err != nil {
@@ -665,6 +726,8 @@ func convRandomGroup(c *Ctx, idx int) {
 		if norm != nil {
 			convCheckC37(c, cs, norm)
 			convEmitModelCases(c, cs, fd, norm)
+			convMutantCases(c, cs)
+			convMutantCases(c, cs)
 		}
 		return fd
 	}
@@ -737,5 +800,23 @@ func famConv(c *Ctx) {
 	convLinked(c)
 	for i := 0; i < c.N; i++ {
 		convRandomGroup(c, i)
+		for k := 0; k < 6; k++ {
+			convResolveProbe(c, 6*i+k)
+		}
 	}
+}
+
+// debugging aid: CONV_DUMP=<file with x-hex token> h convdump  prints the proto as text
+func init() {
+	Register("convdump", func(c *Ctx) {
+		b, err := os.ReadFile(os.Getenv("CONV_DUMP"))
+		if err != nil {
+			panic(err)
+		}
+		p := &descriptorpb.FileDescriptorProto{}
+		if err := proto.Unmarshal(ParseHexB(strings.TrimSpace(string(b))), p); err != nil {
+			panic(err)
+		}
+		fmt.Fprintln(os.Stderr, prototext.MarshalOptions{Multiline: true}.Format(p))
+	})
 }
